@@ -159,8 +159,10 @@ func (r *yieldRewriter) rewriteStmts(
 	}
 
 	if isLast {
-		if children.kind == kindDelay {
-			r.generateLastNormalIfNecessary(children)
+		// the statement may have moved on to a new callback body (a for/switch
+		// with a yielding init statement): that is the block which ends here
+		if following.kind == kindDelay {
+			r.generateLastNormalIfNecessary(following)
 		}
 	} else {
 		following = r.combineIfNecessary(following)
